@@ -578,6 +578,76 @@ theorem c10_wrapper_history_independent {α : Type} [Add α] [Sub α] [Mul α] [
 
 end history
 
+/-! ### (10) the control skeleton of `solve_inplace`, read from the header on every run -/
+
+/-- The body of `BKLDLT::solve_inplace` (and of `solve`), flattened by the translator from the clang AST alone into rows
+    `(nesting depth, kind, canonical text)` (`Gen.BK.solve_inplace_flow`, target `solve_flow` in xlate/tgt_c10.py: comments, white space and
+    redundant parentheses do not enter), IS the five-phase skeleton that `Model/BKLDLT.lean` `solve_inplace` (and its complex twin) mirrors:
+    (1) the `m_computed` check, (2) `applyPermc` forward, (3) `fwdLoop` with the bound `end` = `n-3`/`n-2`, whose body branches on
+    `m_perm[i] >= 0` ONLY (1x1: one column update; 2x2: two-column update and the extra `i++`), (4) `diagLoop` branching on `m_perm[i] >= 0`
+    (division resp. the translated `solve_inplace_2x2` and `i++`), (5) `bwdLoop` (dot product, then on `m_perm[i] < 0` the second dot
+    product and `i--`), (6) `applyPermc` backward — and NOTHING else:
+      * no `continue`, `break`, `return`, `goto`, `while`, `switch` anywhere in the body;
+      * exactly five loops and four branch statements, with exactly these headers / conditions;
+      * every `if` / loop-header / `?:` condition reads only `m_computed`, `m_perm`, `m_n`, the loop index and the loop bounds — never the
+        right-hand side `x` / `res` / `b` nor a matrix entry: the control flow of a solve is independent of the DATA, as it is in the model
+        (where the recursion of `fwdLoop`/`diagLoop`/`bwdLoop` inspects `pget` alone);
+      * `solve` copies its argument, calls `solve_inplace` on the copy and returns it.
+    A data-dependent shortcut ("skip the update when `x[i] == 0`", an early exit on a zero tail, ...) adds a row and a condition name and
+    breaks this theorem before any failing input is known; the `rhs` part of harness/c10.cpp then supplies the input. -/
+theorem c10_solve_skeleton :
+    solve_inplace_flow =
+      [(0, "if", "(!m_computed)"),
+       (1, "throw", "std::logic_error(\"BKLDLT: need to call compute() first\")"),
+       (0, "decl", "x := b.data()"),
+       (0, "decl", "res := (x, m_n)"),
+       (0, "decl", "npermc := m_permc.size()"),
+       (0, "for", "i := 0 ; (i < npermc) ; (i++)"),
+       (1, "call", "swap(x[m_permc[i].first], x[m_permc[i].second])"),
+       (0, "decl", "end := ((m_perm[(m_n - 1)] < 0) ? (m_n - 3) : (m_n - 2))"),
+       (0, "for", "i := 0 ; (i <= end) ; (i++)"),
+       (1, "decl", "b1size := ((m_n - i) - 1)"),
+       (1, "decl", "b2size := (b1size - 1)"),
+       (1, "if", "(m_perm[i] >= 0)"),
+       (2, "decl", "l := ((&coeff((i + 1), i)), b1size)"),
+       (2, "assign", "(res.segment((i + 1), b1size).noalias() -= (l * x[i]))"),
+       (1, "else", ""),
+       (2, "decl", "l1 := ((&coeff((i + 2), i)), b2size)"),
+       (2, "decl", "l2 := ((&coeff((i + 2), (i + 1))), b2size)"),
+       (2, "assign", "(res.segment((i + 2), b2size).noalias() -= ((l1 * x[i]) + (l2 * x[(i + 1)])))"),
+       (2, "expr", "(i++)"),
+       (0, "for", "i := 0 ; (i < m_n) ; (i++)"),
+       (1, "decl", "e11 := diag_coeff(i)"),
+       (1, "if", "(m_perm[i] >= 0)"),
+       (2, "assign", "(x[i] /= e11)"),
+       (1, "else", ""),
+       (2, "decl", "e21 := coeff((i + 1), i)"),
+       (2, "decl", "e22 := diag_coeff((i + 1))"),
+       (2, "call", "solve_inplace_2x2(e11, e21, e22, x[i], x[(i + 1)])"),
+       (2, "expr", "(i++)"),
+       (0, "decl", "i := ((m_perm[(m_n - 1)] < 0) ? (m_n - 3) : (m_n - 2))"),
+       (0, "for", " ; (i >= 0) ; (i--)"),
+       (1, "decl", "ldim := ((m_n - i) - 1)"),
+       (1, "decl", "l := ((&coeff((i + 1), i)), ldim)"),
+       (1, "assign", "(x[i] -= l.dot(res.segment((i + 1), ldim)))"),
+       (1, "if", "(m_perm[i] < 0)"),
+       (2, "decl", "l2 := ((&coeff((i + 1), (i - 1))), ldim)"),
+       (2, "assign", "(x[(i - 1)] -= l2.dot(res.segment((i + 1), ldim)))"),
+       (2, "expr", "(i--)"),
+       (0, "for", "i := (npermc - 1) ; (i >= 0) ; (i--)"),
+       (1, "call", "swap(x[m_permc[i].first], x[m_permc[i].second])")] ∧
+    (∀ r ∈ solve_inplace_flow, r.2.1 ∉ ["continue", "break", "return", "goto", "while", "do", "switch", "case", "label", "try", "catch"]) ∧
+    (solve_inplace_flow.filter (fun r => r.2.1 = "if" ∨ r.2.1 = "for")).map (fun r => (r.1, r.2.1, r.2.2)) =
+      [(0, "if", "(!m_computed)"), (0, "for", "i := 0 ; (i < npermc) ; (i++)"),
+       (0, "for", "i := 0 ; (i <= end) ; (i++)"), (1, "if", "(m_perm[i] >= 0)"),
+       (0, "for", "i := 0 ; (i < m_n) ; (i++)"), (1, "if", "(m_perm[i] >= 0)"),
+       (0, "for", " ; (i >= 0) ; (i--)"), (1, "if", "(m_perm[i] < 0)"),
+       (0, "for", "i := (npermc - 1) ; (i >= 0) ; (i--)")] ∧
+    (∀ nm ∈ solve_inplace_cond_names, nm ∈ ["m_computed", "m_perm", "m_n", "i", "end", "npermc", "operator[]"]) ∧
+    solve_inplace_params = ["b"] ∧
+    solve_flow = [(0, "decl", "res := b"), (0, "call", "solve_inplace(res)"), (0, "return", "res")] := by
+  refine ⟨by decide, by decide, by decide, by decide, by decide, by decide⟩
+
 /-! ### non-vacuity -/
 /-- the zero-diagonal block `[0 1; 1 0]` meets the hypothesis of `c10_solve2_ordered` (second branch: rows exchanged) -/
 example : (0 : ℚ) * (@solve_inplace_2x2 ℚ _ _ _ _ _ (scOfField ⟨id, fun x _ => x, 1, 1⟩) 0 1 0 3 4).1
